@@ -380,7 +380,10 @@ def rule_layer_faults_are_whole(ctx) -> None:
     rank = "retrieved" if "retrieved" in fn.params else fn.params[2]
     n_layers = 0
     for t in [x for x in walk_no_defs(fn.node) if isinstance(x, ast.Try)]:
-        resets = [y for h in t.handlers for st in h.body for y in ast.walk(st) if isinstance(y, ast.Assign) and any(isinstance(tt, ast.Name) and tt.id.endswith("_used") for tt in y.targets)
+        # role: a layer's "used" flag = a name the try body sets (to True / a bool) and the handler resets to False
+        set_in_body = {tt.id for b in t.body for y in ast.walk(b) if isinstance(y, ast.Assign) for tt in y.targets if isinstance(tt, ast.Name)
+                       and ((isinstance(y.value, ast.Constant) and y.value.value is True) or (isinstance(y.value, ast.Call) and dotted(y.value.func) == "bool"))}
+        resets = [y for h in t.handlers for st in h.body for y in ast.walk(st) if isinstance(y, ast.Assign) and any(isinstance(tt, ast.Name) and tt.id in set_in_body for tt in y.targets)
                   and isinstance(y.value, ast.Constant) and y.value.value is False]
         if not resets:
             continue
